@@ -99,7 +99,13 @@ class SimDatagramTransport:
             return
         self._closing = True
         self.net.unbind(self.addr)
-        self.net.loop.call_soon(self.protocol.connection_lost, None)
+
+        def _lost():
+            # a closed socket does not keep its protocol alive
+            proto, self.protocol = self.protocol, None
+            if proto is not None:
+                proto.connection_lost(None)
+        self.net.loop.call_soon(_lost)
 
     def abort(self):
         self.close()
